@@ -438,6 +438,7 @@ struct ARun {
     next_fid: AtomicU64,
     inputs: HashMap<u64, Input>,
     use_guard: bool,
+    long_lived: bool,
 }
 
 /// Drop a merge-on-drop guard, optionally as a local of a scope that unwinds.
@@ -458,6 +459,17 @@ fn a_send(r: &ARun, id: u64, unwind: bool) {
     let res = std::panic::catch_unwind(std::panic::AssertUnwindSafe(|| match &r.target {
         Target::Keyed(m) => m.lock().unwrap().merge(mk_call(i).close()),
         Target::Tee(m) => m.lock().unwrap().merge(mk_call(i).close()),
+        Target::Worker(w) if r.long_lived && !r.use_guard => {
+            // every thread keeps one handle of its own for as long as it lives and sends through it by reference
+            TL_WORKER.with(|c| {
+                if c.borrow().is_none() {
+                    *c.borrow_mut() = w.lock().unwrap().clone();
+                }
+                if let Some(h) = c.borrow().as_ref() {
+                    h.send(mk_call(i).close());
+                }
+            });
+        }
         Target::Worker(w) => {
             let h = w.lock().unwrap().clone();
             if let Some(h) = h {
@@ -552,7 +564,22 @@ fn flush_worker(r: &ARun, fid: u64, op: &Value, fut: impl std::future::Future<Ou
     };
 }
 
+thread_local! {
+    /// plan key `long_lived_handles`: the handle of the worker sink this thread keeps for its whole life
+    static TL_WORKER: std::cell::RefCell<Option<WorkerSink<CallEntry, Logged<KeyedAggregator<Call, CaptureSink>>>>> = const { std::cell::RefCell::new(None) };
+}
+
 fn a_ops(r: &Arc<ARun>, ops: &[Value]) {
+    a_ops_inner(r, ops);
+    // the thread's own handle goes away with the thread
+    let h = TL_WORKER.with(|c| c.borrow_mut().take());
+    if h.is_some() {
+        detsim::yield_point();
+        drop(h);
+    }
+}
+
+fn a_ops_inner(r: &Arc<ARun>, ops: &[Value]) {
     for op in ops {
         match js(op, "op", "") {
             "send" => a_send(r, ju(op, "id", 0), jb(op, "unwind", false)),
@@ -562,6 +589,21 @@ fn a_ops(r: &Arc<ARun>, ops: &[Value]) {
                 }
             }
             "flush" => a_flush(r, op),
+            "close_clone" => {
+                // a clone of the shared sink is closed in the middle of the run (the parent entry that embeds it is
+                // emitted) while the other handles stay in use: what was merged so far is emitted now, what is merged
+                // later belongs to the next close
+                if let Target::MutexPlain(m) = &r.target {
+                    let h = m.lock().unwrap().clone();
+                    if let Some(h) = h {
+                        r.log.log(AK::Phase("early_close"));
+                        if let Ok(closed) = std::panic::catch_unwind(std::panic::AssertUnwindSafe(move || h.close())) {
+                            let t = to_test_entry(RootEntry::new(closed));
+                            r.log.log(emit_from(0, &t, false));
+                        }
+                    }
+                }
+            }
             "sleep" => detsim::sleep_ns(ju(op, "ns", 0)),
             "yield" => detsim::yield_point(),
             _ => {}
@@ -602,7 +644,7 @@ fn agg_main(plan: &Value, slot: Arc<Mutex<Option<AggRun>>>, log: ALog) {
         _ => Target::Keyed(SimMutex::new(Logged::new(KeyedAggregator::<Call, CaptureSink>::new(CaptureSink { no: 0, log: log.clone() }), 1, log.clone()))),
     };
     let worker_tid: Option<usize> = detsim::live_threads().into_iter().map(|t| t.0).find(|t| !before.contains(t));
-    let r = Arc::new(ARun { log: log.clone(), target, next_fid: AtomicU64::new(0), inputs: inputs_of(plan), use_guard: jb(plan, "use_guard", false) });
+    let r = Arc::new(ARun { log: log.clone(), target, next_fid: AtomicU64::new(0), inputs: inputs_of(plan), use_guard: jb(plan, "use_guard", false), long_lived: jb(plan, "long_lived_handles", false) });
     let mut hs = vec![];
     for (i, ops) in ja(plan, "threads").iter().enumerate() {
         let ops: Vec<Value> = ops.as_array().cloned().unwrap_or_default();
@@ -751,7 +793,7 @@ pub fn check_c10(plan: &Value, run: &AggRun) -> Option<Violation> {
             AK::SendEnd { id } => {
                 send_ret.insert(*id, e.seq);
             }
-            AK::Merge { tag: 1, id } => merge_order.push((e.seq, *id)),
+            AK::Merge { tag: 1 | 99, id } => merge_order.push((e.seq, *id)),
             AK::CloseBegin => close_begin = Some(e.seq),
             AK::HandleDropped => handle_dropped = Some(e.seq),
             AK::Phase("timed_flush_checked") => timed_checked = Some(e.seq),
@@ -1099,9 +1141,30 @@ pub fn gen_c10(rng: &mut Rng, _tier: Tier) -> Value {
         }
         clear(&mut main_ops);
     }
+    // the shared mutex sink is closed more than once: after every fourth operation or so a clone of it is closed early
+    if kind == "mutex" && mix(ju(&sched, "seed", 0), 0xc105e) % 3 == 0 {
+        let mut k = mix(ju(&sched, "seed", 0), 0xc105f);
+        for t in threads.iter_mut().chain(std::iter::once(&mut Value::Array(vec![]))) {
+            if let Some(a) = t.as_array_mut() {
+                let mut i = 0;
+                while i < a.len() {
+                    k = mix(k, i as u64);
+                    if k % 4 == 0 {
+                        a.insert(i + 1, json!({"op":"close_clone"}));
+                        i += 1;
+                    }
+                    i += 1;
+                }
+            }
+        }
+    }
+    // half of the plans: every thread keeps one handle of the worker sink for its whole life (instead of a clone per
+    // send); decided from the schedule seed, so that no other draw moves
+    let long_lived = mix(ju(&sched, "seed", 0), 0x1019) % 2 == 0;
     json!({
         "scenario": "aggregation",
         "sched": sched,
+        "long_lived_handles": long_lived,
         "kind": kind,
         "poison": poison,
         "flush_interval_ns": interval,
